@@ -79,6 +79,10 @@ def _fwd_rev_binary_op(op, name=None):
 class Vector:
     """Value storage for arbitrary objects with added numerics."""
 
+    # Make numpy scalars/arrays on the left-hand side defer to the reflected
+    # operators of `Vector` instead of treating it as a sequence
+    __array_ufunc__ = None
+
     def __init__(self, tree):
         """Instantiates a vector.
 
